@@ -11,7 +11,7 @@ compile histories parse several texts in random order first."""
 import itertools, json, os, random
 from vf import common, zast, zgen, zmodel as M, zcmp, zcheck
 
-DW_PROGS = ["entry ?root", "entry parent", "entry (offset == 0x1d) parent*", "unit root child", "entry abbrev", "abbrev entry",
+DW_PROGS = ["entry ?root", "unit root ?root offset", "entry parent* ?root offset", "entry parent", "entry (offset == 0x1d) parent*", "unit root child", "entry abbrev", "abbrev entry",
             "entry ?(child) [child offset]", "entry @AT_name", "entry attribute value", "[entry offset] length", "symbol name",
             "entry (|D| D child ?(parent == D))", "entry root", "entry @AT_type*", "entry ?TAG_subprogram child ?root"]
 INPUTS = ["", "i:3:dec:0", "i:3:dec:0,s:6162:1", "s:61:0,u:7:hex:2,i:-1:dec:0"]
@@ -109,6 +109,7 @@ def job(payload):
     rng = random.Random(seed)
     out = {"n": 0, "histories": 0, "pulls": 0, "exhaustive_sets": 0, "compile_histories": 0, "nontrivial": 0, "bad": [], "samples": [], "ctx": {}}
     limit = opts["limit"]
+    errq = [("let Ea Eb := 5 ;", ""), ("1 2 drop drop drop", ""), ('"a" 1 add', ""), ("let Ea Eb Ec := 1 2 ;", ""), ("( 1 , drop ) ( 2 == 2 )", "")]
     for c in range(count):
         g = zgen.Gen(rng, maxdepth=rng.randint(1, 4), err_rate=0.03)
         ninp = rng.randint(1, 3)
@@ -146,7 +147,19 @@ def job(payload):
             scheds, exhaustive = schedules(pulls, rng, limit)
             if exhaustive:
                 out["exhaustive_sets"] += 1
+            for inp, rf in refs.items():
+                if rf["st"] == "error" and len(errq) < 30:
+                    errq.append((text, inp))
             for sch in scheds:
+                if errq and rng.random() < 0.5:
+                    # an execution of some OTHER query that ends in an error comes right before this history
+                    et, ei = rng.choice(errq)
+                    d.req("parse id=qe q=%s" % common.hx(et))
+                    if d.req("exec qid=qe rid=re in=%s fuel=0" % ei)["st"] == "ok":
+                        d.req("next rid=re max=300 fuel=%d" % (zcheck.FUEL * 5))
+                        d.req("rdestroy rid=re")
+                        out["after_error"] = out.get("after_error", 0) + 1
+                    d.req("qdestroy id=qe")
                 qid = rng.choice(["qa", "qb"])
                 out["histories"] += 1
                 out["pulls"] += sum(1 for _, op in sch if op == "n")
@@ -241,6 +254,29 @@ def job_dwarf(payload):
                         out["bad"].append(("impure:dwarf-value-reused", dict(file=tag, query=p, other=(b if p == a else a), got=len(got), want=len(want))))
                     d.req("rdestroy rid=%s" % rid)
                 d.req("qdestroy id=da"); d.req("qdestroy id=db")
+        # abandoned executions: pull k results of one query, destroy it, then everything else must still be as in a fresh process
+        for a in DW_PROGS:
+            na = len(refs[a]["res"])
+            for k in sorted(set([1, 2, 3, max(1, na // 2), max(1, na - 1)])):
+                if k > na:
+                    continue
+                d.req("parse id=da q=%s" % common.hx(a))
+                d.req("exec qid=da rid=ra in=v:dw")
+                rr = d.req("next rid=ra max=%d fuel=0" % k, timeout=120)
+                out["dw_pulls"] += 1
+                if [ser(x) for x in rr["res"]] != [ser(x) for x in refs[a]["res"][:k]]:
+                    out["bad"].append(("impure:dwarf-value-reused", dict(file=tag, query=a, pulled=k, note="prefix differs")))
+                d.req("rdestroy rid=ra"); d.req("qdestroy id=da")
+                out["dw_abandoned"] = out.get("dw_abandoned", 0) + 1
+                for b in [a] + rng.sample(DW_PROGS, 2):
+                    d.req("parse id=db q=%s" % common.hx(b))
+                    d.req("exec qid=db rid=rb in=v:dw")
+                    rb = d.req("next rid=rb max=100000 fuel=0", timeout=120)
+                    out["dw_pulls"] += 1
+                    if [ser(x) for x in rb["res"]] != [ser(x) for x in refs[b]["res"]]:
+                        out["bad"].append(("impure:after-abandoned-execution", dict(file=tag, abandoned=a, after_pulls=k, query=b,
+                                                                                      got=len(rb["res"]), want=len(refs[b]["res"]))))
+                    d.req("rdestroy rid=rb"); d.req("qdestroy id=db")
         d.req("close id=dw")
         out["samples"].append(dict(file=tag, queries=DW_PROGS[:3]))
     except common.DriverCrash as ex:
@@ -260,7 +296,7 @@ def run(chk):
     pairs = [(a, b) for a in SYNTAX_STATE for b in SYNTAX_STATE]
     zcheck.consume(chk, pool.map(job_syntax_state, [(1, pairs[i:i + 12]) for i in range(0, len(pairs), 12)]), tot, ctx, samples, "C12 compile pairs")
     tdir = os.path.join(common.REPO, "tests")
-    files = [os.path.join(tdir, f) for f in ("typedef.o", "nontrivial-types.o", "dwz-partial", "a1.out", "enum.o", "bitcount.o", "dwz-partial2-1", "char_16_32.o")
+    files = [os.path.join(tdir, f) for f in ("typedef.o", "nontrivial-types.o", "dwz-partial", "a1.out", "enum.o", "bitcount.o", "dwz-partial2-1", "char_16_32.o", "twocus", "dwz-partial3-1")
              if os.path.exists(os.path.join(tdir, f))]
     zcheck.consume(chk, pool.map(job_dwarf, [(f, chk.seed + i) for i, f in enumerate(files)]), tot, ctx, samples, "C12 dwarf")
     hs = pool.hook_stats()
@@ -273,7 +309,8 @@ def run(chk):
         "programs": tot.get("n", 0), "pulls_compared": tot.get("pulls", 0) + tot.get("dw_pulls", 0),
         "programs_whose_interleavings_were_enumerated_exhaustively": tot.get("exhaustive_sets", 0),
         "compile_histories": tot.get("compile_histories", 0), "ordered_text_pairs_compiled_in_one_process": tot.get("compile_pairs", 0),
-        "dwarf_reuse_histories": tot.get("dw_histories", 0),
+        "histories_run_right_after_an_execution_that_raised": tot.get("after_error", 0),
+        "dwarf_reuse_histories": tot.get("dw_histories", 0), "dwarf_abandoned_executions_followed_by_full_runs": tot.get("dw_abandoned", 0),
         "state_types_seen": sorted((hs.get("state_types") or {}).keys()),
         "samples": samples[:5],
     })
